@@ -197,11 +197,26 @@ func (p *Prog) SrcFuncs(rel string) []*ssa.Function {
 			}
 		}
 	}
+	// by file name and offset, not by token.Pos: files are parsed concurrently, so the order of their Pos ranges varies from run to run
+	type key struct {
+		file string
+		off  int
+		name string
+	}
+	ks := map[*ssa.Function]key{}
+	for _, f := range out {
+		ps := p.Fset.Position(f.Pos())
+		ks[f] = key{ps.Filename, ps.Offset, f.String()}
+	}
 	sort.Slice(out, func(i, j int) bool {
-		if out[i].Pos() != out[j].Pos() {
-			return out[i].Pos() < out[j].Pos()
+		a, b := ks[out[i]], ks[out[j]]
+		if a.file != b.file {
+			return a.file < b.file
 		}
-		return out[i].String() < out[j].String()
+		if a.off != b.off {
+			return a.off < b.off
+		}
+		return a.name < b.name
 	})
 	return out
 }
